@@ -33,6 +33,21 @@ def sites(src):
                 out.append((n, i, a, b)); start = i + len(a)
     return out
 
+def sites2(src):
+    """second family: statement deletion (compound assignments and call statements), continue<->break, .min<->.max, small constants"""
+    out = []; lines = src.split('\n'); in_test = False
+    for n, l in enumerate(lines):
+        st = l.strip()
+        if st.startswith('#[cfg(test)]'): in_test = True
+        if in_test or st.startswith('//') or st.startswith('#['): continue
+        code = l.split('//')[0]
+        if re.match(r'^\s*[\w\.\*\[\]]+\s*(\+=|-=|\*=|/=)\s*[^;]+;\s*$', code) or re.match(r'^\s*[\w\.]+\.(push|insert|clear|consume|remove)\([^;]*\);\s*$', code):
+            out.append((n, 0, code.rstrip(), ''))            # delete the statement
+        for a, b in [('continue;', 'break;'), ('break;', 'continue;'), ('.min(', '.max('), ('.max(', '.min('), ('Decimal::ZERO', 'Decimal::ONE'), ('= 30;', '= 31;'), ('1..=7', '1..=8'), ('1..=7', '0..=7')]:
+            i = code.find(a)
+            if i >= 0 and '"' not in code: out.append((n, i, a, b))
+    return out
+
 def run_one(k, unit, rel, src, site, base):
     n, i, a, b = site
     lines = src.split('\n'); l = lines[n]; lines[n] = l[:i] + b + l[i + len(a):]
@@ -60,14 +75,14 @@ def main():
     base = '/tmp/ms/base'; shutil.rmtree('/tmp/ms', ignore_errors=True); os.makedirs(base)
     subprocess.run(f'git -C /repo archive HEAD crates Cargo.toml Cargo.lock | tar -x -C {base}', shell=True, check=True)
     src = open(os.path.join(base, rel)).read()
-    ss = sites(src)[:mx]
+    ss = (sites2(src) if '--family2' in sys.argv else sites(src))[:mx]
     print(f'{len(ss)} mutation sites in {rel}', flush=True)
     res = []
     with ThreadPoolExecutor(max_workers=j) as ex:
         futs = [ex.submit(run_one, k, unit, rel, src, s, base) for k, s in enumerate(ss)]
         for f in futs:
             r = f.result(); res.append(r); print('\t'.join(str(x) for x in r), flush=True)
-    tsv = f'/tmp/ms-{unit}-{os.path.basename(rel)}.tsv'
+    tsv = f'/tmp/ms{"2" if "--family2" in sys.argv else ""}-{unit}-{os.path.basename(rel)}.tsv'
     open(tsv, 'w').write('\n'.join('\t'.join(str(x) for x in r) for r in res))
     from collections import Counter
     print(Counter(r[4].split(' ')[0] for r in res)); print('results in', tsv)
